@@ -82,6 +82,13 @@ def programs(ctx):
         add(t4, 1)
     for _ in range(60 if ctx.quick else 600):
         add(g.ty(3, leaves), 2)
+    # (after the random part, so that the random stream is what it was) an Option around every constructor that has an Option somewhere inside, at the OUTER `None` and at a `Some`: the outer `| null` may
+    # not be dropped because the inner text already mentions one
+    for inner in (VEC(OPT(P("u8"))), {"k": "arr", "t": OPT(P("bool")), "n": 2}, {"k": "tuple", "ts": [OPT(P("u8")), P("String")]},
+                  {"k": "map", "a": P("String"), "b": OPT(N("U1")), "impl": "HashMap"}, {"k": "set", "t": OPT(P("u8")), "impl": "BTreeSet"},
+                  {"k": "result", "a": OPT(P("u8")), "b": P("String")}, W("box", VEC(OPT(N("U2")))), VEC(VEC(OPT(P("i64"))))):
+        probes.append({"ty": OPT(inner), "values": [{"k": "none"}, {"k": "some", "v": g.val(inner, imap)}]})
+        probes.append({"ty": VEC(OPT(inner)), "values": [{"k": "seq", "vs": [{"k": "none"}, {"k": "some", "v": g.val(inner, imap)}]}]})
     for pr in probes:   # unsized / non-serializable shapes: no values
         if json.dumps(pr["ty"]).count('"w": "ref"') or pr["ty"].get("k") == "slice":
             pr["values"] = pr["values"] if pr["ty"].get("k") != "slice" else []
